@@ -39,5 +39,5 @@ OctaveStep == [][/\ (act'.c \in {"<", ">"} => (st'.oct - st.oct) \in {-1, 0, 1})
 \* note numbers of named notes: octave*12 + semitone + 1, within 1..84
 NoteNumber == (act.c = "note" /\ out.err = 0) => out.tones[1].n \in 1..84
 
-Emit == PrintT(<<"TRANSITION", ToJson([from |-> st, a |-> act', to |-> st', err |-> out'.err])>>)
+Emit == PrintT(<<"TRANSITION", ToJson([from |-> st, a |-> act', text |-> CmdText(act'), to |-> st', err |-> out'.err])>>)
 =============================================================================
